@@ -434,6 +434,46 @@ def run(ctx):
                 meta.append(rep)
                 if content is not None and verdict != LENIENT:
                     ctx.sample({"rule": rname, "content": content, "class": cls, "expected": verdict, "observed_ff": ff, "observed_codes": codes}, limit=8)
+    # random content sections installed as rules (names and combinations the shipped table does not have,
+    # unknown content-rule names, enumerations, mixed flag): model correspondence + the same statement
+    IMPLEMENTED = ["emptyContent", "floatContent", "floatRangeContent_EW", "floatRangeContent_NS", "floatContent_Nonnegative", "intContent",
+                   "nonEmptyContent", "strContent", "timeContent", "uriContent", "yearDateContent", "anyContent"]
+    rcases, rwants, rmeta = [], [], []
+    for i in range(400 if thorough else 120):
+        crs = ctx.rng.sample(IMPLEMENTED, ctx.rng.choice([0, 1, 1, 2, 2, 3]))
+        unknown = ctx.rng.random() < 0.12
+        if unknown:
+            crs.insert(ctx.rng.randrange(len(crs) + 1), ctx.rng.choice(["fooContent", "IntContent", "emptycontent", ""]))
+        enum = ctx.rng.choice([None, None, None, ["1", "2.5", "x", ""], ["12:00:00", "2021", "http://a.b/"]])
+        mixed = ctx.rng.random() < 0.4
+        rule_json = [{}, [["value", 0, None]], dict({"content_rules": crs}, **({"content_enum": enum} if enum is not None else {}))]
+        pool = pool_for(ctx, [c for c in crs if c in IMPLEMENTED], enum, 2)
+        ctx.rng.shuffle(pool)
+        for content in [None, ""] + pool[:6]:
+            kidnames = ["value"] if ctx.rng.random() < 0.4 else []
+            ff, codes = RL.impl_rule(rule_json, mixed, "x", content, [], kidnames)
+            ctx.case(("random-section", tuple(crs), tuple(enum) if enum else None, mixed, content, bool(kidnames)), True)
+            ctx.count("random_sections")
+            rep = {"kind": "impl-vs-statement", "installed_rule": rule_json, "mixed": mixed, "content": content, "children": kidnames,
+                   "observed_ff": ff, "observed_codes": codes}
+            if ff.startswith("CRASH") or any(c.startswith("CRASH") for c in codes):
+                ctx.fail("C02:crash:random-section", f"content validation let a non-rule exception escape: ff={ff} codes={codes}", rep)
+            if (ff == "OK") != (codes == []):
+                ctx.fail("C02:modes-differ:random-section", f"the two modes disagree on acceptance: ff={ff} codes={codes}", rep)
+            if unknown:
+                if "UNKNOWN_CONTENT_RULE" not in codes or ff == "OK":
+                    ctx.fail("C02:unknown-content-rule", "a content-rule name the validator does not implement was not reported", rep)
+            else:
+                verdict, cls = expected(crs, enum, mixed, content, len(kidnames))
+                rep["expected"], rep["class"] = verdict, cls
+                ccodes = [c for c in codes if c.startswith(CONTENT_CODES)]
+                if verdict == ACCEPT and (ccodes or ff != "OK"):
+                    ctx.fail("C02:rejected:random-section:" + cls, f"content the constraints allow was rejected: ff={ff} codes={codes}", rep)
+                if verdict == REJECT and (not ccodes or ff not in CONTENT_CLASSES):
+                    ctx.fail("C02:accepted:random-section:" + cls, f"content violating the constraints was not rejected with a content error: ff={ff} codes={codes}", rep)
+            rcases.append(RL.coq_rcase(rule_json, mixed, "x", content, [], kidnames))
+            rwants.append(RL.coq_outcome((ff, codes)))
+            rmeta.append(rep)
     ctx.extra["lenient_spellings_logged"] = {k: v for k, v in sorted(lenient_log.items())}
     ctx.extra["content_sections"] = len(seen_sections)
     # (B) correspondence
@@ -446,5 +486,13 @@ def run(ctx):
         ctx.fail(f"corr:{m['rule']}:{m['class']}", "model and implementation disagree on content validation",
                  {"kind": "broken-correspondence", "theorem": "C02 (model/implementation correspondence)", "case": m,
                   "model": RL.coq_show(ctx, "corr", "run_rncase tb", cases[i])}, concrete=False)
+    bad2, errors2 = RL.coq_compare(ctx, "corrR", "run_rcase (range_ew, range_ns)", rcases, rwants)
+    ctx.extra["traces_validated_against_impl"] += (len(rcases) - len(bad2)) if not errors2 else 0
+    for name, out in errors2:
+        ctx.fail("corr:coq-error", f"case file {name} did not evaluate", {"kind": "broken-correspondence", "file": name, "output": out}, concrete=False)
+    for i in bad2[:3]:
+        ctx.fail("corr:random-section", "model and implementation disagree on content validation of an installed rule",
+                 {"kind": "broken-correspondence", "theorem": "C02 (model/implementation correspondence)", "case": rmeta[i],
+                  "model": RL.coq_show(ctx, "corrR", "run_rcase (range_ew, range_ns)", rcases[i])}, concrete=False)
     if not built:
         ctx.obligations_failed("ran every shipped rule x content pool against the independent lexical classification")
